@@ -138,11 +138,12 @@ Section C08.
              parse_time_np parse_time_fmt parse_time_pd parse_delta feqb_spec teqb_spec deqb_spec P).
   Qed.
 
-  (* ---- C08_multiset, drill: levels that hold integers, booleans, or text that no guess of _val_to_num
-     converts (lk: class of each level; Pv_drill: non-empty legal segment text; the metadata pm of the file is
-     arbitrary - it plays no role for drill since fix b6723cb of the dirN name collision).  The levels come back as dir0, dir1, ... with the guessed value of the key text
-     (the integer, the boolean, the text).  Floats/timestamps in drill levels and levels mixing classes
-     are NOT covered by this theorem.                                                   *)
+  (* ---- C08_multiset, drill: every level holds values of ONE class (lk): integers, booleans, text that no guess of
+     _val_to_num converts - all three proved - or floats / timestamps whose text the guesses convert back to the value
+     (parse_guess (str v) = v: a hypothesis about float(), pd.Timestamp() per value, trusted base).  Pv_drill: non-empty
+     legal segment text; the metadata pm of the file is arbitrary - it plays no role for drill since fix b6723cb.
+     The levels come back as dir0, dir1, ... with the guessed value of the key text.  Levels mixing classes are not
+     covered by this theorem (text mixed with other classes reads back as text since fix 2ae7489).              *)
   Theorem C08_multiset_drill :
     forall (pm : list (str * kind)) (names : list str), names <> [] ->
     forall ord : list str -> list str, (forall l x, In x (ord l) <-> In x l) ->
